@@ -79,6 +79,12 @@ def setup_entry(ex: Exec, ct: Contract, fi: FuncInfo):
         ctx.inputs.append((name, str(v.t), ty.name))
         if name == "self":
             ex.self_sv = v
+    for name, tys in ct.ghost.get("ghost_params", {}).items():
+        from . import sorts as _s
+
+        v = ctx.fresh(_s.parse_ty(tys), "gp_" + name)
+        params[name] = v
+        ctx.inputs.append((name, str(v.t), v.ty.name))
     for name, tys in ct.ghost.get("globals", {}).items():
         from . import sorts
 
